@@ -22,6 +22,10 @@ ASSUMPTIONS = ["relations with a zero or negative net absolute-value weight may 
                "absolute terms are merged only when their inner expressions are identical (same coefficients and constant)"]
 
 VARS = ["x", "y", "z", "w"]
+# spellings of the four variables: plain, look-alikes of exponents / numbers, prefixes and underscores
+NAME_SCHEMES = {"plain": {}, "exponent": {"x": "e1", "y": "E2", "z": "e", "w": "E"}, "prefix": {"x": "x1", "y": "x10", "z": "x_1", "w": "x_"},
+                "mixed": {"x": "e10x", "y": "E2y", "z": "e_1", "w": "x1e5"}}
+_NAMES = [{}]          # the scheme of the case being rendered (set by render())
 DY = [1, 2, 3, 0.5, 4, 1.5, 0.25, 5, 2.5, 10, 0.75, 7, 6]
 DEC = [0.1, 0.2, 0.3, 1.3, 2.7, 0.7, 1.1, 12.5, 0.05, 3.3]
 
@@ -151,6 +155,9 @@ def _case(draw):
                 sd.append({"s": draw(st.sampled_from([1, -1])), "k": "var", "c": draw(_coef(cls)), "v": v})
     spell = [[draw(st.integers(0, 1000)) for _ in range(8)] for _ in range(3)]
     case = {"cls": cls, "rel": rel, "sides": sides, "spell": spell}
+    nm = draw(st.sampled_from(["plain", "plain", "plain", "exponent", "prefix", "mixed"]))
+    if nm != "plain":
+        case["names"] = nm
     if draw(st.integers(0, 9)) == 0:
         case["mpos"] = draw(st.integers(0, 1000))
         case["malform"] = MALFORMATIONS[(case["mpos"] * 7 + spell[0][0]) % len(MALFORMATIONS)]
@@ -306,7 +313,10 @@ def r_side(items, sp):
             out += sp.opsp() + ("-" if it["s"] < 0 else "+") + sp.opsp()
         k = it["k"]
         if k == "var":
-            out += r_coef(it["c"], sp) + it["v"]
+            cs, name = r_coef(it["c"], sp), _NAMES[0].get(it["v"], it["v"])
+            if cs and cs[-1] not in "* " and name[0] in "eE":
+                cs += " "       # "2e1" is the number 20 in any reading; "2 e1" and "2*e1" are two times the variable e1
+            out += cs + name
         elif k == "num":
             out += r_number(it["n"], sp)
         elif k == "grp":
@@ -320,6 +330,7 @@ def r_side(items, sp):
 
 def render(case, k):
     sp = Spell(case["spell"][k])
+    _NAMES[0] = NAME_SCHEMES[case.get("names", "plain")]
     rel = case["rel"]
     if rel in ("=", "=="):
         rel = ["=", "=="][sp.pick(2)] if k else rel
@@ -535,8 +546,10 @@ def run_case(case):
         try:
             ts = parse(s)
             ts2 = parse(s)
-            outcomes.append(("ok", env.tl_data(env.PolyhedralTermList(ts)), s))
-            if env.tl_data(env.PolyhedralTermList(ts2)) != outcomes[-1][1] or not (ts == ts2):
+            back = {v: k for k, v in NAME_SCHEMES[case.get("names", "plain")].items()}
+            unname = lambda tl: [[{back.get(n, n): c for n, c in t[0].items()}, t[1]] for t in tl]  # noqa: E731
+            outcomes.append(("ok", unname(env.tl_data(env.PolyhedralTermList(ts))), s))
+            if unname(env.tl_data(env.PolyhedralTermList(ts2))) != outcomes[-1][1] or not (ts == ts2):
                 viol = {"what": "parsing %r twice gave different results" % s, "sig": {"kind": "parse-not-repeatable"}, "detail": {"string": s}}
         except env.PolyhedralSyntaxConvexException:
             outcomes.append(("convex", None, s))
